@@ -115,6 +115,7 @@ func allProps() []PropSpec {
 			Harnesses: []HarnessSpec{
 				{Func: "ZZ_C12_H1", Pkg: "pkg/route", Quick: map[string]int{"N": 5}, Thorough: map[string]int{"N": 7}, Covers: []string{"reached-assert", "some-abort"}},
 				{Func: "ZZ_C12_H2", Pkg: "pkg/route", Covers: []string{"reached-assert", "matched"}},
+				{Func: "ZZ_C12_H3", Pkg: "pkg/route", Covers: []string{"reached-assert"}},
 			},
 			Assumptions: []string{"chains up to N handlers over the seven behaviours of the property; group nesting depth <= 2 below the engine; Engine built without a transport and ServeHTTP called directly"},
 		},
@@ -123,8 +124,17 @@ func allProps() []PropSpec {
 			Harnesses: []HarnessSpec{
 				{Func: "ZZ_C11_H1", Pkg: "pkg/protocol/http1", Quick: map[string]int{"P": 1, "H": 1, "B": 1}, Thorough: map[string]int{"P": 2, "H": 2, "B": 2}, Covers: []string{"reached-assert", "with-body"}},
 				{Func: "ZZ_C11_H2", Pkg: "pkg/protocol/http1/resp", Covers: []string{"reached-assert", "too-large"}},
+				{Func: "ZZ_C11_BIG", Pkg: "pkg/protocol/http1", Covers: []string{"reached-assert"}, Unwind: 20000, MaxSteps: 8000000, Note: "8 KiB+ streamed request body across copy-buffer boundaries"},
 			},
 			Assumptions: []string{"multipart and URL-encoded form bodies, proxy form, gzip helpers and HostClient.Do plumbing are outside this revision", "the independent parser is the real hertz server (Serve over standard.Conn) plus the strict line reader of C05; net/http is not used as second decoder", "response templates: fixed, chunked+trailer, 204, 304, 100-continue+final, read-until-close with 3 symbolic body bytes and one symbolic header value byte"},
+		},
+		{
+			ID: "C04",
+			Harnesses: []HarnessSpec{
+				{Func: "ZZ_C04_H1", Pkg: "pkg/protocol/http1", Quick: map[string]int{"K": 1, "NSTATUS": 9, "L": 3}, Thorough: map[string]int{"K": 2, "NSTATUS": 4, "L": 2}, Covers: []string{"reached-assert", "bodiless", "with-body"}, MaxSteps: 4000000},
+				{Func: "ZZ_C04_BIG", Pkg: "pkg/protocol/http1", Covers: []string{"reached-assert"}, Unwind: 20000, MaxSteps: 8000000, Note: "8 KiB+ streamed body across copy-buffer boundaries (symbolic bytes at the boundaries)"},
+			},
+			Assumptions: []string{"responses are produced by a handler inside the real Serve loop over the real standard.Conn and decoded by the strict reader in harness/pkg/protocol/http1/serve.go (not net/http)", "documented exclusion honoured: hijacked chunked writer on a response that may not have a body", "body sizes <= 3 bytes: the 4 KiB / MaxSmallFileSize flush thresholds are not exercised", "Date and Server headers disabled"},
 		},
 	}
 }
